@@ -154,7 +154,11 @@ def generate(tier, rng):
   for _ in range(nsb // 3):
     n = rng.randrange(10, 60)
     yield {'kind': 'shuffle', 'n': n, 'B': rng.choice([1, 2, 3, n // 2, n - 1, n, n + 5]), 'seed': rng.randrange(1 << 30),
-           'src': rng.randrange(6)}
+           'src': rng.randrange(8)}
+  for n in range(2, 9):
+    for B in (1, 2, 3, n, n + 1):
+      for src in (6, 7):      # equal elements
+        yield {'kind': 'shuffle', 'n': n, 'B': B, 'seed': rng.randrange(1 << 30), 'src': src}
   for n, B in [(12, 3), (12, 4), (12, 12), (12, 30), (30, 5), (30, 29)]:
     yield {'kind': 'shuffle_seeds', 'n': n, 'B': B, 'seeds': [rng.randrange(1 << 30) for _ in range(6)]}
   # -- buffered_shuffle_batch_client_datasets
@@ -166,14 +170,14 @@ def generate(tier, rng):
            'seed': rng.choice([0, 1, 2 ** 32 - 1] + [rng.randrange(1 << 30)] * 5), 'aff': list(rng.choice(AFFS)),
            'ds': [[0, 0, s] for s in sizes], 'it': rng.randrange(5), 'pos': rng.randrange(2)}
   # -- RepeatableIterator
-  for base in range(9):
+  for base in range(10):
     for n in range(0, 5):
       for calls in sorted({0, 1, n, n + 1, n + 2, 2 * n + 2, 3 * n + 4, 4 * n + 5}):
         yield {'kind': 'repeat', 'base': base, 'n': n, 'calls': calls}
   # -- a pass consumed in pieces: iter() is called again in the middle of a pass (islice then list,
   #    a for loop that breaks then another for, next then list, bare iter()), in the first and in
   #    later passes, for container and one-shot bases
-  for base in range(9):
+  for base in range(10):
     for n in range(1, 5):
       for prior in range(0, 3):
         pats = []
@@ -235,6 +239,7 @@ def _columns(g):
     obj[j] = b'o%d' % t
   return {
       'h': (g % 2048).astype(np.float16),
+      'nf': np.array([np.nan, np.inf, -np.inf, 1.5], dtype=np.float32)[g % 4],   # non-finite values on REAL rows
       'flag': (g % 2 == 1),
       'img': ((g[:, None] * 3 + np.arange(3)[None, :]) % 251 + 1).astype(np.uint8).reshape(n, 3),
       's4': np.array([b'r%d' % (t % 1000) for t in g.tolist()], dtype='S4').reshape(n),
@@ -293,7 +298,7 @@ def _fd_impl(data, impl):
     from fedjax.core import federated_data as fdm
     extra = dict(data)
     extra['~not-in-subset' if any(isinstance(k, str) for k in data) else b'~not-in-subset'] = _examples(10 ** 6, 2, 0, False)
-    return fdm.SubsetFederatedData(fedjax.InMemoryFederatedData(extra), sorted(data)), lambda: None
+    return fdm.SubsetFederatedData(fedjax.InMemoryFederatedData(extra), list(reversed(sorted(data)))), lambda: None
   if impl == 'sqlite':
     import os
     import shutil
@@ -305,9 +310,13 @@ def _fd_impl(data, impl):
     # 'bytes32' / 'str96' are not parseable; serialization is C16's subject): not stored in SQLite
     strip = lambda ex: {k: v for k, v in ex.items() if k not in ('s4', 'u3')}
     with sq.SQLiteFederatedDataBuilder(path) as b:
-      b.add_many([(cid, strip(data[cid])) for cid in sorted(data)])
+      keys = sorted(data)
+      keys = keys[1::2] + keys[0::2]      # SQLite iterates in insertion (rowid) order: make it differ from the sorted order
+      b.add_many([(cid, strip(data[cid])) for cid in keys])
     return sq.SQLiteFederatedData.new(path), lambda: shutil.rmtree(d, ignore_errors=True)
-  return fedjax.InMemoryFederatedData(data), lambda: None
+  keys = list(data)
+  keys = keys[1::2] + keys[0::2]        # insertion order differs from the sorted order
+  return fedjax.InMemoryFederatedData({k: data[k] for k in keys}), lambda: None
 
 
 def _perturb(k):
@@ -321,7 +330,8 @@ def _repeat_base(kind, n):
   return [lambda: list(range(n)), lambda: tuple(range(n)), lambda: {k: -k for k in range(n)},
           lambda: ''.join(chr(48 + k) for k in range(n)), lambda: bytes(range(n)),
           lambda: (k for k in range(n)), lambda: iter(list(range(n))), lambda: range(n),
-          lambda: map(lambda k: k, range(n))][kind]()
+          lambda: map(lambda k: k, range(n)),
+          lambda: __import__('fedjax').RepeatableIterator(k for k in range(n))][kind]()    # a wrapper of the wrapper
 
 
 def _iterable(dsl, how, cnt=None):
@@ -340,6 +350,11 @@ def _iterable(dsl, how, cnt=None):
   return [lambda: list(dsl), gen, lambda: tuple(dsl), lambda: iter(list(dsl)), lambda: map(tick, dsl)][how]()
 
 
+def _eq(a, b):
+  a, b = np.asarray(a), np.asarray(b)
+  return a.dtype == b.dtype and a.shape == b.shape and np.array_equal(a, b, equal_nan=a.dtype.kind in 'fc')
+
+
 def _snap_datasets(dsl):
   return [[(k, v.copy()) for k, v in d.raw_examples.items()] for d in dsl]
 
@@ -352,7 +367,7 @@ def _datasets_unchanged(dsl, snap):
       return False
     for k, v in sn:
       cur = d.raw_examples[k]
-      if cur.dtype != v.dtype or cur.shape != v.shape or not np.array_equal(cur, v):
+      if not _eq(cur, v):
         return False
   return True
 
@@ -392,7 +407,7 @@ def _v_follows(b, aff, mask):
     exp['w'] = np.stack([g * 10, g * 10 + 1], axis=1)
   if 'y' in b:
     exp['y'] = g.astype(np.float32)
-  want_dt = {'v': np.int64, 'w': np.int64, 'y': np.float32, 'h': np.float16, 'flag': np.bool_, 'img': np.uint8,
+  want_dt = {'v': np.int64, 'w': np.int64, 'y': np.float32, 'h': np.float16, 'nf': np.float32, 'flag': np.bool_, 'img': np.uint8,
              's4': np.dtype('S4'), 'u3': np.dtype('U3'), 'day': np.dtype('datetime64[D]'), 'cplx': np.complex64,
              'obj': np.dtype(object)}
   for k in ('s4', 'u3'):        # absent from SQLite-backed datasets
@@ -411,7 +426,7 @@ def _v_follows(b, aff, mask):
         if not real[j] and col[j] not in (0, b'', None):
           return False
       continue
-    if not np.array_equal(col[real], np.asarray(e)[real]):
+    if not np.array_equal(col[real], np.asarray(e)[real], equal_nan=(k == 'nf')):
       return False
     pad = col[~real]
     zero = np.zeros(pad.shape, col.dtype)
@@ -471,7 +486,7 @@ def _run_padded(case, dsl):
           e1 = 'ValueError' if isinstance(ex, ValueError) else type(ex).__name__
         else:
           e2 = 'ValueError' if isinstance(ex, ValueError) else type(ex).__name__
-  kept_ok = all(set(b) == set(sn) and all(np.array_equal(np.asarray(b[k]), sn[k]) for k in sn) for b, sn in kept)
+  kept_ok = all(set(b) == set(sn) and all(_eq(b[k], sn[k]) for k in sn) for b, sn in kept)
   pulled = cnt[0] if case.get('it', 0) in (1, 4) else None
   return {'batches': batches, 'err': err, 'feat_ok': feat_ok[0], 'again': again == (batches, err),
           'interleaved': (o1, e1) == (batches, err) and (o2, e2) == (batches, err), 'kept_ok': bool(kept_ok),
@@ -489,11 +504,15 @@ def run(case):
     ids = [b'c%02d' % j + (b'\x00' * (j % 3)) for j in range(len(case['sizes']))]
     if case.get('idtype') == 'str':
       ids = [i.decode('latin1') for i in ids]
+    if len(ids) > 1:
+      ids[-1] = ids[-1][:0]      # the empty id is a valid client id
     order = sorted(range(len(ids)), key=lambda j: ids[j])
-    base, data = 0, {}
+    base, built = 0, {}
     for j in order:   # rows numbered in sorted-id order = the order clients() visits
-      data[ids[j]] = _examples(base, case['sizes'][j], 0, False)
+      built[ids[j]] = _examples(base, case['sizes'][j], 0, False)
       base += case['sizes'][j]
+    # ... but the mapping is filled in the given (unsorted) order
+    data = {ids[j]: built[ids[j]] for j in range(len(ids))}
     fd = fedjax.InMemoryFederatedData(data)
     a, b = case['aff']
     if (a, b) != (1, 0):
@@ -518,7 +537,8 @@ def run(case):
     def source():
       n = case['n']
       return [lambda: range(n), lambda: list(range(n)), lambda: (k for k in range(n)), lambda: tuple(range(n)),
-              lambda: iter(list(range(n))), lambda: {k: None for k in range(n)}.keys()][case['src']]()
+              lambda: iter(list(range(n))), lambda: {k: None for k in range(n)}.keys(),
+              lambda: [k // 2 for k in range(n)], lambda: (7 for _ in range(n))][case['src']]()
     rng = RecRng(case['seed'])
     out, err = _drain(cd.buffered_shuffle(source(), case['B'], rng), int)
     rng2 = np.random.RandomState(case['seed'])
@@ -609,11 +629,8 @@ def run(case):
     return {'parts': parts, 'prim': prim, 'trace': trace, 'iter_is_self': iter_ok, 'runaway': runaway}
   if kind == 'repeat':
     n = case['n']
-    base = [lambda: list(range(n)), lambda: tuple(range(n)), lambda: {k: -k for k in range(n)},
-            lambda: ''.join(chr(48 + k) for k in range(n)), lambda: bytes(range(n)),
-            lambda: (k for k in range(n)), lambda: iter(list(range(n))), lambda: range(n),
-            lambda: map(lambda k: k, range(n))][case['base']]()
-    it = fdm.RepeatableIterator(base)
+    base = _repeat_base(case['base'], n)
+    it = fedjax.RepeatableIterator(base)
     trace = []
     for _ in range(case['calls']):
       try:
@@ -662,13 +679,16 @@ def run(case):
       if case.get('idtype') == 'str' and case.get('impl', 'mem') != 'sqlite':
         data = {k.decode('latin1'): v for k, v in data.items()}
       fd, cleanup = _fd_impl(data, case.get('impl', 'mem'))
-      ids = sorted(data)
+      created = {cid: j for j, cid in enumerate(sorted(data))}      # the rows of client j start at 100 * j + 1
+      ids = [cid for cid, _ in fd.clients()]                        # stream positions refer to clients() order
+      rank = lambda cid, ds: [ids.index(cid) if cid in ids else -1,
+                              ids.index(cid) if created.get(cid) == int(np.asarray(ds.raw_examples['x'])[0]) // 100 else -2]
 
       def take(seed, k):
         _perturb(k)
         out = []
         for cid, ds in itertools.islice(fd.shuffled_clients(case['B'], seed), nc * case['epochs']):
-          out.append([ids.index(cid) if cid in ids else -1, int(np.asarray(ds.raw_examples['x'])[0]) // 100])
+          out.append(rank(cid, ds))
         return out
       o1 = take(case['seed'], 1)
       same = o1 == take(case['seed'], 2)
@@ -678,7 +698,7 @@ def run(case):
       for _ in range(nc * case['epochs']):
         for st, acc in ((s1, i1), (s2, i2)):
           cid, ds = next(st)
-          acc.append([ids.index(cid) if cid in ids else -1, int(np.asarray(ds.raw_examples['x'])[0]) // 100])
+          acc.append(rank(cid, ds))
       same = same and i1 == o1 and i2 == o1
       # the oracle of every pass, recomputed independently: NumPy's answers for RandomState(seed)
       # when one buffered_shuffle per pass is run over the clients
@@ -780,7 +800,8 @@ def oracle(case, obs):
   if kind == 'shuffle':
     if obs['err'] is not None:
       return [('shuffle-error', f'buffered_shuffle raised {obs["err"]}')]
-    if sorted(obs['out']) != list(range(case['n'])):
+    want = {6: sorted(k // 2 for k in range(case['n'])), 7: [7] * case['n']}.get(case['src'], list(range(case['n'])))
+    if sorted(obs['out']) != want:
       out.append(('shuffle-not-permutation', 'buffered_shuffle lost or duplicated an item'))
     if not obs['same']:
       out.append(('shuffle-not-reproducible', 'same seed, different order'))
@@ -922,6 +943,9 @@ def encode(case, obs):
     args = _oracle_args(case, obs)
     if args is None or obs['err'] is not None:
       return f'(CShuffle {case["B"]}%Z [] []%Z {case["n"]}%nat, {BAD_OBS})'
+    if case['src'] >= 6:
+      src = [k // 2 for k in range(case['n'])] if case['src'] == 6 else [7] * case['n']
+      return f'(CShuffleL {case["B"]}%Z {args[0]} {args[1]} {_zl(src)}, OShuffle {_zl(obs["out"])})'
     return f'(CShuffle {case["B"]}%Z {args[0]} {args[1]} {case["n"]}%nat, OShuffle {_zl(obs["out"])})'
   if kind == 'shufbatch':
     args = _oracle_args(case, obs)
@@ -989,10 +1013,10 @@ def describe(case, obs):
     d['impl'] = case.get('impl', 'mem')
     d['stream_seed'] = {0: '0', 1: '1', 2 ** 32 - 1: '2^32-1'}.get(case['seed'], 'other')
   elif kind == 'repeat_ops':
-    d['base'] = ['list', 'tuple', 'dict', 'str', 'bytes', 'generator', 'list_iterator', 'range', 'map'][case['base']]
+    d['base'] = ['list', 'tuple', 'dict', 'str', 'bytes', 'generator', 'list_iterator', 'range', 'map', 'RepeatableIterator'][case['base']]
     d['split_in_pass'] = min(sum(1 for o in case['ops'] if o == ['L']) - 1, 3)
   elif kind == 'repeat':
-    d['base'] = ['list', 'tuple', 'dict', 'str', 'bytes', 'generator', 'list_iterator', 'range', 'map'][case['base']]
+    d['base'] = ['list', 'tuple', 'dict', 'str', 'bytes', 'generator', 'list_iterator', 'range', 'map', 'RepeatableIterator'][case['base']]
     d['passes'] = min(case['calls'] // (case['n'] + 1), 4)
   return d
 
